@@ -291,7 +291,7 @@ def _obs():
                       'Size.max_strings_in_group=%d (so that the per-fragment string cap is inside the bound); '
                       'variableLengthFrags=%s' % (cap, vlf), param={'cap': cap, 'vlf': vlf, 'nd': 2 if tier == 'quick' else 3},
                       timeout=1000 if tier == 'quick' else 3000, tier=tier))
-    for xl, da, len2, len3, tier in ((2, 1, 1, 0, 'quick'), (0, 1, 1, 0, 'quick'), (2, 2, 1, 0, 'thorough'),
+    for xl, da, len2, len3, tier in ((2, 1, 1, 0, 'quick'), (0, 1, 1, 0, 'thorough'), (2, 2, 1, 0, 'thorough'),
                                      (1, 1, 2, 0, 'thorough'), (2, 1, 1, 1, 'thorough')):
         obs.append(Ob('K6', 'k6_sampled_order', 'end to end when extraction starts from a sample (forced by a tiny '
                       'Size) and a seed is given: every ordering of the same examples gives the same list',
